@@ -1,6 +1,7 @@
 import Driver.Common
 import CoapVerif.Model.Framing
 import CoapVerif.Spec.Framing
+import CoapVerif.Spec.WritePath
 /-!
 Driver for C07.  Lines: `cfg <max>` (new connection), `chunk <hex>` (one read).
 `model`: prints per chunk what the model delivers: `ord k {code tok paylen payfnv}* sig j {code}* closed b`.
@@ -95,6 +96,31 @@ def judgeLine (s : JState) (line : String) : JState × String :=
     | _ => (s, "bad-op")
   | _ => (s, "bad-op")
 
+/-- `wr … || sent d* | recv d* rest n err e` -/
+def wjudgeLine (line : String) : String :=
+  match line.splitOn " || " with
+  | [_, obs] =>
+    match obs.splitOn " | " with
+    | [s, r] =>
+      match words s, words r with
+      | "sent" :: sent, "recv" :: rest =>
+        let n := rest.length
+        if n < 4 then "violates unparsable-observation"
+        else
+          let recv := rest.take (n - 4)
+          match rest.drop (n - 4) with
+          | ["rest", a, "err", b] =>
+            match a.toNat?, b.toNat? with
+            | some a, some b =>
+              match Spec.WritePath.judge sent recv a b with
+              | none => "ok"
+              | some e => s!"violates {e}"
+            | _, _ => "violates unparsable-observation"
+          | _ => "violates unparsable-observation"
+      | _, _ => "violates unparsable-observation"
+    | _ => "violates unparsable-observation"
+  | _ => "bad-op"
+
 end Driver.C07
 
 def main (args : List String) : IO UInt32 := do
@@ -111,6 +137,7 @@ def main (args : List String) : IO UInt32 := do
       let (s', o) := Driver.C07.judgeLine s l
       stdout.putStrLn o
       pure s'
-  | _ => IO.eprintln "usage: drv_c07 model|judge"; return 2
+  | ["wjudge"] => Driver.forLines stdin fun l => stdout.putStrLn (Driver.C07.wjudgeLine l)
+  | _ => IO.eprintln "usage: drv_c07 model|judge|wjudge"; return 2
   stdout.flush
   return 0
